@@ -15,7 +15,8 @@ def dispatch(prop):
         return (lambda tier: check_bucket.run(prop, tier)), \
                (lambda path: check_bucket.replay(prop, path))
     simple = {'C09': 'check_isolation', 'C10': 'check_cache', 'C11': 'check_diskcache',
-              'C12': 'check_random', 'C13': 'check_seeds', 'C19': 'check_database'}
+              'C12': 'check_random', 'C13': 'check_seeds', 'C19': 'check_database',
+              'C20': 'check_profile'}
     if prop in simple:
         import importlib
         mod = importlib.import_module('harness.' + simple[prop])
